@@ -37,21 +37,23 @@ Required(ev) == IF ev.kind = "run" THEN E!RunCase(ev.prog, ev.files, ev.tlimit, 
 Accepts(o, ev) == IF ev.kind = "run" THEN E!Conforms(o, ev.obs) ELSE o = ev.obs
 Und(o, ev) == ev.kind = "run" /\ o.und
 
-(* One textual use of the specification for both phases (TLC's start-up analysis walks   *)
-(* every call path into the evaluator).  Phase 0: prints "und" or, when the strict        *)
-(* specification rejects the observation, its requirement ("strict"), and is TRUE iff    *)
-(* the case must be judged again.  Phase 1: prints the verdict: "dev" the observation is *)
-(* what the named deviations produce, "bad" it is not.                                   *)
+(* One textual use of the specification for both phases, as a state CONSTRAINT (TLC's     *)
+(* start-up analysis walks every call path into the evaluator, twice for paths from the   *)
+(* next-state action).  Phase 0: prints "und" or, when the strict specification rejects  *)
+(* the observation, its requirement ("strict"); the state is kept (TRUE), and so gets    *)
+(* its phase-1 successor, iff the case must be judged again.  Phase 1: prints the        *)
+(* verdict: "dev" the observation is what the named deviations produce, "bad" it is not. *)
 Judge ==
+    i = 0 \/
     LET ev == File[i]
         o == Required(ev)
     IN  IF ph = 0 THEN
             (IF Und(o, ev) THEN PrintT("VJSON " \o ToJson([id |-> ev.id, status |-> "und"])) /\ FALSE
              ELSE IF Accepts(o, ev) THEN FALSE
              ELSE PrintT("VJSON " \o ToJson([id |-> ev.id, status |-> "strict", want |-> o])))
-        ELSE PrintT("VJSON " \o ToJson([id |-> ev.id, status |-> IF ~Und(o, ev) /\ Accepts(o, ev) THEN "dev" ELSE "bad", dev |-> <<o>>])) /\ FALSE
+        ELSE PrintT("VJSON " \o ToJson([id |-> ev.id, status |-> IF ~Und(o, ev) /\ Accepts(o, ev) THEN "dev" ELSE "bad", dev |-> <<o>>]))
 
 Init == blk \in 1..K /\ i = 0 /\ ph = 0
 Next == \/ i = 0 /\ i' \in {j \in 1..Len(File) : j % K = blk - 1} /\ UNCHANGED <<blk, ph>>
-        \/ i # 0 /\ Judge /\ ph' = 1 /\ UNCHANGED <<blk, i>>
+        \/ i # 0 /\ ph = 0 /\ ph' = 1 /\ UNCHANGED <<blk, i>>
 =============================================================================
